@@ -44,7 +44,8 @@ class Srv(object):
 
 # signed prefixes, one per (seqnum, rank, k), built at import: `bytes([...])` under CrossHair yields a symbolic
 # bytes object whose every hash deep-realises it (measured: 15 hashes and 150 solver queries per path)
-_PREFIX = dict(((s, r, k), b"prefix-" + bytes([s, r, k])) for s in range(0, 8) for r in range(4) for k in range(0, 8))
+_SEQ_VALUES = list(range(0, 8)) + [9, 10, 11, 99, 100, 101, 999, 1000, 1001]
+_PREFIX = dict(((s, r, k), b"prefix-%d-%d-%d" % (s, r, k)) for s in _SEQ_VALUES for r in range(4) for k in range(0, 8))
 
 
 def verinfo(seq, rank, k, n=N_TOTAL):
@@ -131,7 +132,10 @@ def concrete(descs, nv, B):
                 c = pin_in(c, B["cs"])
             else:
                 c = pin(c, B["k"] + B["c_lo"], B["k"] + B["c_hi"])
-            out.append((pin(s, 1, B["seq_max"]), pin(r, 0, B["rank_max"]), B["k"], c,
+            s = pin(s, 1, B["seq_max"])
+            if B.get("seqs") is not None:
+                s = B["seqs"][s - 1]          # the descriptor's seqnum index names an actual sequence number (e.g. 9, 10, 100)
+            out.append((s, pin(r, 0, B["rank_max"]), B["k"], c,
                         pin(d, 0, B.get("dmax", 1)) if B.get("dups", True) else 0))
         else:
             out.append((0, 0, 0, 0, 0))
